@@ -150,45 +150,330 @@ proof fn lemma_fp_consts()
     assert(canon(SM2_MODP_MONT_B@) && fe(SM2_MODP_MONT_B@) == CB()) by(compute);
     assert(val4(SM2_G_X@) == GX() && val4(SM2_G_Y@) == GY()) by(compute);
 }
+//@section spec
+use vstd::arithmetic::mul::*;
+// ---------------------------------------------------------------- modular arithmetic helpers (generic modulus)
+pub proof fn lemma_fp_mod_range(x: int, m: int) requires m > 0 ensures 0 <= x % m < m
+{ lemma_mod_bound(x, m); }
+pub proof fn lemma_fp_small(x: int, m: int) requires 0 <= x < m ensures x % m == x
+{ lemma_small_mod(x as nat, m as nat); }
+pub proof fn lemma_fp_cong_mul(a: int, b: int, c: int, m: int)
+    requires m > 0, a % m == b % m
+    ensures (a * c) % m == (b * c) % m, (c * a) % m == (c * b) % m
+{
+    lemma_mul_mod_noop_general(a, c, m);
+    lemma_mul_mod_noop_general(b, c, m);
+    assert(a * c == c * a) by(nonlinear_arith);
+    assert(b * c == c * b) by(nonlinear_arith);
+}
+pub proof fn lemma_fp_cong_add(a: int, b: int, c: int, d: int, m: int)
+    requires m > 0, a % m == b % m, c % m == d % m
+    ensures (a + c) % m == (b + d) % m, (a - c) % m == (b - d) % m
+{
+    lemma_add_mod_noop(a, c, m); lemma_add_mod_noop(b, d, m);
+    lemma_sub_mod_noop(a, c, m); lemma_sub_mod_noop(b, d, m);
+}
+// adding a multiple of m does not change the residue
+pub proof fn lemma_fp_mod_shift(x: int, k: int, m: int) requires m > 0 ensures (x + k * m) % m == x % m
+{
+    lemma_mod_multiples_vanish(k, x, m);
+    assert(m * k + x == x + k * m) by(nonlinear_arith);
+}
+// multiplying by a unit representative
+pub proof fn lemma_fp_unit(x: int, u: int, m: int) requires m > 0, u % m == 1 ensures (x * u) % m == x % m
+{
+    lemma_mul_mod_noop_general(x, u, m);
+    assert(x * 1 == x);
+}
+// ---------------------------------------------------------------- the Montgomery decoding map on integers
+pub open spec fn fev(v: int) -> int { (v * RINV_P()) % P() }
+pub proof fn lemma_fev_range(v: int) ensures 0 <= fev(v) < P()
+{ lemma_params(); lemma_fp_mod_range(v * RINV_P(), P()); }
+pub proof fn lemma_fev_cong(v: int, w: int) requires v % P() == w % P() ensures fev(v) == fev(w)
+{ lemma_params(); lemma_fp_cong_mul(v, w, RINV_P(), P()); }
+// fev(v * R) == v mod p
+pub proof fn lemma_fev_R(v: int) ensures fev(v * r256()) == v % P()
+{
+    lemma_params();
+    let u = r256() * RINV_P();
+    assert(v * r256() * RINV_P() == v * u) by(nonlinear_arith) requires u == r256() * RINV_P();
+    lemma_fp_unit(v, u, P());
+}
+// fev(v) * R == v mod p
+pub proof fn lemma_fev_timesR(v: int) ensures (fev(v) * r256()) % P() == v % P()
+{
+    lemma_params();
+    let u = r256() * RINV_P();
+    lemma_mul_mod_noop_general(v * RINV_P(), r256(), P());
+    assert(v * RINV_P() * r256() == v * u) by(nonlinear_arith) requires u == r256() * RINV_P();
+    lemma_fp_unit(v, u, P());
+}
+pub proof fn lemma_fev_inj(x: int, y: int) requires 0 <= x < P(), 0 <= y < P(), fev(x) == fev(y) ensures x == y
+{
+    lemma_fev_timesR(x); lemma_fev_timesR(y);
+    lemma_fp_small(x, P()); lemma_fp_small(y, P());
+}
+pub proof fn lemma_fev_add(v: int, a: int, b: int) requires v % P() == (a + b) % P() ensures fev(v) == (fev(a) + fev(b)) % P()
+{
+    lemma_params();
+    lemma_fev_cong(v, a + b);
+    assert((a + b) * RINV_P() == a * RINV_P() + b * RINV_P()) by(nonlinear_arith);
+    lemma_add_mod_noop(a * RINV_P(), b * RINV_P(), P());
+}
+pub proof fn lemma_fev_sub(v: int, a: int, b: int) requires v % P() == (a - b) % P() ensures fev(v) == (fev(a) - fev(b)) % P()
+{
+    lemma_params();
+    lemma_fev_cong(v, a - b);
+    assert((a - b) * RINV_P() == a * RINV_P() - b * RINV_P()) by(nonlinear_arith);
+    lemma_sub_mod_noop(a * RINV_P(), b * RINV_P(), P());
+}
+// Montgomery product: res * R == a * b (mod p)  ==>  fev(res) == fev(a) * fev(b) (mod p)
+pub proof fn lemma_fev_mont(res: int, a: int, b: int) requires (res * r256()) % P() == (a * b) % P() ensures fev(res) == (fev(a) * fev(b)) % P()
+{
+    lemma_params();
+    let ri = RINV_P(); let rr = r256(); let p = P();
+    let u = rr * ri;
+    lemma_mul_mod_noop(a * ri, b * ri, p);
+    assert((a * ri) * (b * ri) == (a * b) * (ri * ri)) by(nonlinear_arith);
+    lemma_fp_cong_mul(res * rr, a * b, ri * ri, p);
+    assert((res * rr) * (ri * ri) == (res * ri) * u) by(nonlinear_arith) requires u == rr * ri;
+    lemma_fp_unit(res * ri, u, p);
+}
+// ---------------------------------------------------------------- postconditions of the add/sub/neg reductions
+pub proof fn lemma_fp_add_post(a: int, b: int, v: int)
+    requires 0 <= a < P(), 0 <= b < P(), (v == a + b && a + b < P()) || (v == a + b - P() && a + b >= P())
+    ensures 0 <= v < P(), v == (a + b) % P(), fev(v) == (fev(a) + fev(b)) % P()
+{
+    lemma_params();
+    if a + b >= P() { lemma_fp_mod_shift(v, 1, P()); }
+    lemma_fp_small(v, P());
+    lemma_fev_add(v, a, b);
+}
+pub proof fn lemma_fp_sub_post(a: int, b: int, v: int)
+    requires 0 <= a <= P(), 0 <= b < P(), (v == a - b && a >= b) || (v == a - b + P() && a < b)
+    ensures 0 <= v <= P(), v < P() || (a == P() && b == 0), v % P() == (a - b) % P(), fev(v) == (fev(a) - fev(b)) % P()
+{
+    lemma_params();
+    if a < b { lemma_fp_mod_shift(a - b, 1, P()); }
+    lemma_fev_sub(v, a, b);
+}
+pub proof fn lemma_fp_neg_post(a: int, v: int)
+    requires 0 <= a < P(), (a == 0 && v == 0) || (a > 0 && v == P() - a)
+    ensures 0 <= v < P(), fev(v) == (P() - fev(a)) % P()
+{
+    lemma_params();
+    assert(0 * RINV_P() == 0);
+    lemma_fp_small(0, P());
+    lemma_mod_multiples_basic(1, P());
+    if a > 0 {
+        lemma_fp_mod_shift(0 - a, 1, P());
+        lemma_fev_sub(v, 0, a);
+        lemma_fp_mod_shift(fev(0) - fev(a), 1, P());
+    }
+}
+// ---------------------------------------------------------------- Montgomery reduction
+// core: z + ((z mod R) * p' mod R) * p is divisible by R when p * p' == -1 (mod R)
+pub proof fn lemma_fp_mont_div(z: int, zl: int, tl: int, pp: int, pv: int, r: int)
+    requires r > 0, zl == z % r, 0 <= z, tl == (zl * pp) % r, (pv * pp + 1) % r == 0,
+    ensures (z + tl * pv) % r == 0
+{
+    let k1 = z / r;
+    let k2 = (zl * pp) / r;
+    let k3 = (pv * pp + 1) / r;
+    assert(z == k1 * r + zl) by(nonlinear_arith) requires r > 0, zl == z % r, k1 == z / r;
+    assert(zl * pp == k2 * r + tl) by(nonlinear_arith) requires r > 0, tl == (zl * pp) % r, k2 == (zl * pp) / r;
+    assert(pv * pp + 1 == k3 * r) by(nonlinear_arith) requires r > 0, (pv * pp + 1) % r == 0, k3 == (pv * pp + 1) / r;
+    assert(z + tl * pv == (k1 - k2 * pv + zl * k3) * r) by(nonlinear_arith)
+        requires z == k1 * r + zl, zl * pp == k2 * r + tl, pv * pp + 1 == k3 * r;
+    lemma_mod_multiples_basic(k1 - k2 * pv + zl * k3, r);
+}
+// the quotient is below 2p
+pub proof fn lemma_fp_mont_q(a: int, b: int, tl: int, q: int, p: int, r: int)
+    requires 0 <= a < p, 0 <= b < p, 0 <= tl < r, 0 < p < r, q * r == a * b + tl * p
+    ensures 0 <= q < 2 * p, 0 <= a * b
+{
+    assert(0 <= a * b && a * b <= p * b) by(nonlinear_arith) requires 0 <= a < p, 0 <= b;
+    assert(p * b <= p * p) by(nonlinear_arith) requires 0 <= b < p;
+    assert(p * p <= p * r) by(nonlinear_arith) requires 0 < p < r;
+    assert(0 <= tl * p && tl * p <= (r - 1) * p) by(nonlinear_arith) requires 0 <= tl < r, 0 < p;
+    assert((r - 1) * p == p * r - p) by(nonlinear_arith);
+    let pr = p * r;
+    assert(q * r < 2 * pr);
+    assert(q < 2 * p) by(nonlinear_arith) requires q * r < 2 * pr, pr == p * r, r > 0;
+    assert(q >= 0) by(nonlinear_arith) requires q * r >= 0, r > 0;
+}
+// final conditional subtraction
+pub proof fn lemma_fp_mont_post(a: int, b: int, tl: int, q: int, res: int)
+    requires q * r256() == a * b + tl * P(), (res == q && q < P()) || (res == q - P() && q >= P())
+    ensures (res * r256()) % P() == (a * b) % P(), fev(res) == (fev(a) * fev(b)) % P()
+{
+    lemma_params();
+    let rr = r256(); let p = P();
+    lemma_fp_mod_shift(a * b, tl, p);
+    if q >= p {
+        assert((q - p) * rr == q * rr + (0 - rr) * p) by(nonlinear_arith);
+        lemma_fp_mod_shift(q * rr, 0 - rr, p);
+    }
+    lemma_fev_mont(res, a, b);
+}
+// ---------------------------------------------------------------- conversions
+pub proof fn lemma_fp_from_mont_post(a: int, res: int)
+    requires 0 <= res < P(), (res * r256()) % P() == (a * 1) % P()
+    ensures res == fev(a)
+{
+    lemma_params();
+    lemma_fev_timesR(a);
+    lemma_fev_range(a);
+    // res * R == fev(a) * R (mod p)  ==> res == fev(a)
+    lemma_fev_R(res); lemma_fev_R(fev(a));
+    lemma_fev_cong(res * r256(), fev(a) * r256());
+    lemma_fp_small(res, P()); lemma_fp_small(fev(a), P());
+}
+// ---------------------------------------------------------------- powers
+pub proof fn lemma_pow_mod_range(x: int, e: nat, m: int) requires m > 0 ensures 0 <= pow_mod(x, e, m) < m decreases e
+{
+    if e == 0 { lemma_fp_mod_range(1, m); } else { lemma_fp_mod_range(pow_mod(x, (e - 1) as nat, m) * x, m); }
+}
+pub proof fn lemma_pow_mod_add(x: int, j: nat, k: nat, m: int) requires m > 0
+    ensures pow_mod(x, j + k, m) == (pow_mod(x, j, m) * pow_mod(x, k, m)) % m
+    decreases k
+{
+    let pj = pow_mod(x, j, m);
+    lemma_pow_mod_range(x, j, m);
+    if k == 0 {
+        lemma_mul_mod_noop_general(pj, 1, m);
+        assert(pj * 1 == pj);
+        lemma_fp_small(pj, m);
+    } else {
+        let k1 = (k - 1) as nat;
+        lemma_pow_mod_add(x, j, k1, m);
+        let pk1 = pow_mod(x, k1, m);
+        assert((j + k - 1) as nat == j + k1);
+        lemma_mul_mod_noop_general(pj * pk1, x, m);
+        lemma_mul_mod_noop_general(pj, pk1 * x, m);
+        assert((pj * pk1) * x == pj * (pk1 * x)) by(nonlinear_arith);
+    }
+}
+// value of the k most significant limbs of e
+pub open spec fn fp_hv(e: Seq<u64>, k: int) -> int {
+    if k <= 0 { 0 }
+    else if k == 1 { e[3] as int }
+    else if k == 2 { e[2] as int + 0x1_0000_0000_0000_0000int * (e[3] as int) }
+    else if k == 3 { e[1] as int + 0x1_0000_0000_0000_0000int * (e[2] as int + 0x1_0000_0000_0000_0000int * (e[3] as int)) }
+    else { val4(e) }
+}
+pub proof fn lemma_fp_hv_step(e: Seq<u64>, k: int) requires e.len() == 4, 0 <= k < 4
+    ensures fp_hv(e, k + 1) == fp_hv(e, k) * 0x1_0000_0000_0000_0000int + e[3 - k] as int, fp_hv(e, k) >= 0
+{ }
+pub open spec fn fp_p2(n: int) -> int decreases n { if n <= 0 { 1 } else { 2 * fp_p2(n - 1) } }
+pub proof fn lemma_fp_p2_64() ensures fp_p2(64) == 0x1_0000_0000_0000_0000int
+{ assert(fp_p2(64) == 0x1_0000_0000_0000_0000int) by(compute); }
+// one square-and-multiply step on the exponent bookkeeping: prefix = hv * pw + top
+pub proof fn lemma_fp_pow_step(x: int, pre: nat, hv: int, pw: int, top: int, bit: int, fsq: int, fnew: int)
+    requires pre == hv * pw + top, hv >= 0, pw >= 1, top >= 0, bit == 0 || bit == 1,
+        fsq == (pow_mod(x, pre, P()) * pow_mod(x, pre, P())) % P(),
+        (bit == 0 && fnew == fsq) || (bit == 1 && fnew == (fsq * x) % P()),
+    ensures 2 * pre + bit == hv * (2 * pw) + (2 * top + bit), fnew == pow_mod(x, (2 * pre + bit) as nat, P())
+{
+    lemma_params();
+    lemma_pow_mod_add(x, pre, pre, P());
+    assert(hv * (2 * pw) == 2 * (hv * pw)) by(nonlinear_arith);
+    assert(pre + pre == 2 * pre);
+    if bit == 1 {
+        assert((2 * pre + 1 - 1) as nat == 2 * pre);
+    }
+}
 //@section code gm-sm2/src/fields/fp64.rs
 
-#[verifier::external_body]
 fn fp_pow(a: &U256, e: &U256) -> (r: U256)
     requires canon(a@)
     ensures canon(r@), fe(r@) == pow_mod(fe(a@), val4(e@) as nat, P())
 {
     let mut r = SM2_MODP_MONT_ONE;
     let mut w = 0u64;
-    for i in (0..4).rev() {
+    proof {
+        lemma_params();
+        assert(canon(SM2_MODP_MONT_ONE@) && fe(SM2_MODP_MONT_ONE@) == 1) by(compute);
+        lemma_fp_small(1, P());
+    }
+    for i in it: (0..4).rev()
+        invariant
+            canon(a@), canon(r@), 0 <= it.index@ <= 4,
+            fp_hv(e@, it.index@ as int) >= 0,
+            fe(r@) == pow_mod(fe(a@), fp_hv(e@, it.index@ as int) as nat, P()),
+    {
         w = e[i];
-        for _j in 0..64 {
+        let ghost k = it.index@ as int;
+        let ghost hv = fp_hv(e@, k);
+        let ghost w0 = w as int;
+        let ghost mut top: int = 0;
+        let ghost mut pw: int = 1;
+        let ghost mut pre: nat = hv as nat;
+        proof { lemma_fp_hv_step(e@, k); assert(hv * 1 == hv); }
+        for _j in jt: 0..64
+            invariant
+                canon(a@), canon(r@), hv >= 0, top >= 0, pw >= 1, pw == fp_p2(jt.index@ as int),
+                w0 * pw == top * 0x1_0000_0000_0000_0000int + w as int,
+                pre == hv * pw + top,
+                fe(r@) == pow_mod(fe(a@), pre, P()),
+        {
+            let ghost wb = w;
             r = r.fp_sqr();
+            let ghost fsq = fe(r@);
             if w & 0x8000000000000000 != 0 {
                 r = r.fp_mul(a);
             }
             w <<= 1;
+            proof {
+                let bit: int = if wb & 0x8000000000000000 != 0 { 1 } else { 0 };
+                assert(wb & 0x8000000000000000 != 0 ==> wb >= 0x8000000000000000 && (wb << 1) == ((wb - 0x8000000000000000) as u64) * 2) by(bit_vector);
+                assert(wb & 0x8000000000000000 == 0 ==> wb < 0x8000000000000000 && (wb << 1) == wb * 2) by(bit_vector);
+                assert(2 * (wb as int) == bit * 0x1_0000_0000_0000_0000int + w as int);
+                lemma_fp_pow_step(fe(a@), pre, hv, pw, top, bit, fsq, fe(r@));
+                assert(w0 * (2 * pw) == 2 * (w0 * pw)) by(nonlinear_arith);
+                top = 2 * top + bit;
+                pw = 2 * pw;
+                pre = (2 * pre + bit) as nat;
+            }
+        }
+        proof {
+            lemma_fp_p2_64();
+            assert(top == w0);
+            assert(w0 == e@[3 - k] as int);
         }
     }
     r
 }
 
-#[verifier::external_body]
 fn fp_to_mont(a: &U256) -> (r: U256)
     requires canon(a@)
     ensures canon(r@), fe(r@) == val4(a@)
 {
+    proof {
+        lemma_fp_consts(); lemma_params(); lemma_val4_bounds(a@);
+        lemma_fp_mod_range(r256() * r256(), P());
+        assert(fe(SM2_MODP_2E512@) == r256() % P()) by(compute);
+        lemma_fev_timesR(val4(a@));
+        lemma_mul_mod_noop_general(fe(a@), r256(), P());
+        lemma_fp_small(val4(a@), P());
+    }
     mont_mul(a, &SM2_MODP_2E512)
 }
 
-#[verifier::external_body]
 fn fp_from_mont(a: &U256) -> (r: U256)
     requires canon(a@)
     ensures canon(r@), val4(r@) == fe(a@)
 {
+    proof {
+        lemma_fp_consts(); lemma_params(); lemma_val4_bounds(a@);
+        assert(val4(SM2_ONE@) == 1);
+        assert forall|res: int| 0 <= res < P() && #[trigger] ((res * r256()) % P()) == (val4(a@) * 1) % P() implies res == fev(val4(a@)) by {
+            lemma_fp_from_mont_post(val4(a@), res);
+        }
+    }
     mont_mul(a, &SM2_ONE)
 }
 
-#[verifier::external_body]
 fn mont_mul(a: &U256, b: &U256) -> (res: U256)
     requires canon(a@), canon(b@)
     ensures canon(res@), (val4(res@) * r256()) % P() == (val4(a@) * val4(b@)) % P(), fe(res@) == (fe(a@) * fe(b@)) % P()
@@ -200,6 +485,7 @@ fn mont_mul(a: &U256, b: &U256) -> (res: U256)
 
     // z = a * b
     z = u256_mul(a, b);
+    let ghost z0 = z@;
 
     // t = low(z) * p'
     let z_low = [z[0], z[1], z[2], z[3]];
@@ -219,15 +505,45 @@ fn mont_mul(a: &U256, b: &U256) -> (res: U256)
 
     // r = high(r)
     r = [z[4], z[5], z[6], z[7]];
+    let ghost q = val4(r@) + (if c { r256() } else { 0 });
+    let ghost tl = val4(t_low@);
+    proof {
+        lemma_fp_consts(); lemma_params();
+        let lo_z = z0.subrange(0, 4); let hi_z = z0.subrange(4, 8);
+        let lo_t = t1@.subrange(0, 4); let hi_t = t1@.subrange(4, 8);
+        let lo_s = sum@.subrange(0, 4); let hi_s = sum@.subrange(4, 8);
+        assert(z_low@ =~= lo_z);
+        assert(t_low@ =~= lo_t);
+        assert(r@ =~= hi_s);
+        lemma_val4_bounds(lo_z); lemma_val4_bounds(hi_z); lemma_val4_bounds(lo_t); lemma_val4_bounds(hi_t);
+        lemma_val4_bounds(lo_s); lemma_val4_bounds(hi_s);
+        lemma_val4_bounds(a@); lemma_val4_bounds(b@);
+        let zz = val8(z0); let zl = val4(lo_z); let rr = r256(); let pp = val4(SM2_P_PRIME@);
+        assert(zz == val4(hi_z) * rr + zl) by(nonlinear_arith) requires zz == zl + rr * val4(hi_z);
+        lemma_fundamental_div_mod_converse(zz, rr, val4(hi_z), zl);
+        assert(zl * pp == val4(hi_t) * rr + tl) by(nonlinear_arith) requires zl * pp == tl + rr * val4(hi_t);
+        lemma_fundamental_div_mod_converse(zl * pp, rr, val4(hi_t), tl);
+        assert(zz >= 0) by(nonlinear_arith) requires zz == val4(a@) * val4(b@), val4(a@) >= 0, val4(b@) >= 0;
+        lemma_fp_mont_div(zz, zl, tl, pp, P(), rr);
+        let tt = zz + tl * P();
+        assert(tt == q * rr + val4(lo_s)) by(nonlinear_arith)
+            requires tt == val4(lo_s) + rr * val4(hi_s) + (if c { rr * rr } else { 0 }), q == val4(hi_s) + (if c { rr } else { 0 });
+        lemma_fundamental_div_mod_converse(tt, rr, q, val4(lo_s));
+        assert(q * rr == val4(a@) * val4(b@) + tl * P());
+        lemma_fp_mont_q(val4(a@), val4(b@), tl, q, P(), rr);
+    }
     if c {
         r = u256_add(&r, &SM2_MODP_MONT_ONE).0;
     } else if u256_cmp(&r, &SM2_P) >= 0 {
         r = u256_sub(&r, &SM2_P).0
     }
+    proof {
+        lemma_val4_bounds(r@);
+        lemma_fp_mont_post(val4(a@), val4(b@), tl, q, val4(r@));
+    }
     r
 }
 
-#[verifier::external_body]
 fn fp_sqrt(a: &U256) -> (res: Sm2Result<U256>)
     requires canon(a@)
     ensures res is Ok ==> canon(res->Ok_0@) && (fe(res->Ok_0@) * fe(res->Ok_0@)) % P() == fe(a@),
@@ -235,6 +551,10 @@ fn fp_sqrt(a: &U256) -> (res: Sm2Result<U256>)
 {
     let r = fp_pow(a, &SM2_SQRT_EXP);
     let a1 = r.fp_sqr();
+    proof {
+        lemma_val4_bounds(a1@); lemma_val4_bounds(a@);
+        if fe(a1@) == fe(a@) { lemma_fev_inj(val4(a1@), val4(a@)); }
+    }
     if u256_cmp(&a1, &a) != 0 {
         return Err(Sm2Error::FieldSqrtError);
     }
@@ -244,73 +564,95 @@ fn fp_sqrt(a: &U256) -> (res: Sm2Result<U256>)
 impl FieldModOperation for U256 {
     spec fn lv(&self) -> Seq<u64> { self@ }
 
-    #[verifier::external_body]
     fn zero() -> Self {
         SM2_ZERO
     }
 
-    #[verifier::external_body]
     fn one() -> Self {
         SM2_ONE
     }
 
-    #[verifier::external_body]
     fn is_zero(&self) -> bool {
         self == &SM2_ZERO
     }
 
-    #[verifier::external_body]
     fn fp_sqr(&self) -> Self {
         self.fp_mul(self)
     }
 
-    #[verifier::external_body]
     fn fp_double(&self) -> Self {
         self.fp_add(self)
     }
 
-    #[verifier::external_body]
     fn fp_triple(&self) -> Self {
         let mut r = self.fp_double();
         r = self.fp_add(&r);
+        proof {
+            lemma_params();
+            let x = fe(self@);
+            lemma_add_mod_noop(x, 2 * x, P());
+            lemma_fp_mod_range(val4(self@) * RINV_P(), P());
+            lemma_fp_small(x, P());
+        }
         r
     }
 
-    #[verifier::external_body]
     fn fp_add(&self, rhs: &Self) -> Self {
         let (r, c) = u256_add(self, rhs);
+        proof {
+            lemma_fp_consts(); lemma_params();
+            lemma_val4_bounds(r@); lemma_val4_bounds(self@); lemma_val4_bounds(rhs@);
+        }
         if c {
             let (diff, _borrow) = u256_add(&r, &SM2_MODP_MONT_ONE);
+            proof {
+                lemma_val4_bounds(diff@);
+                lemma_fp_add_post(val4(self@), val4(rhs@), val4(diff@));
+            }
             return diff;
         }
         if u256_cmp(&r, &SM2_P) >= 0 {
             let (diff, _borrow) = u256_sub(&r, &SM2_P);
+            proof {
+                lemma_val4_bounds(diff@);
+                lemma_fp_add_post(val4(self@), val4(rhs@), val4(diff@));
+            }
             return diff;
         }
+        proof { lemma_fp_add_post(val4(self@), val4(rhs@), val4(r@)); }
         r
     }
 
-    #[verifier::external_body]
     fn fp_sub(&self, rhs: &Self) -> Self {
         let (raw_diff, borrow) = u256_sub(self, rhs);
+        proof {
+            lemma_fp_consts(); lemma_params();
+            lemma_val4_bounds(raw_diff@); lemma_val4_bounds(self@); lemma_val4_bounds(rhs@);
+        }
         if borrow {
             let (diff, _borrow) = u256_sub(&raw_diff, &SM2_MODP_MONT_ONE);
+            proof {
+                lemma_val4_bounds(diff@);
+                lemma_fp_sub_post(val4(self@), val4(rhs@), val4(diff@));
+            }
             diff
         } else {
+            proof { lemma_fp_sub_post(val4(self@), val4(rhs@), val4(raw_diff@)); }
             raw_diff
         }
     }
 
-    #[verifier::external_body]
     fn fp_mul(&self, rhs: &Self) -> Self {
         mont_mul(self, rhs)
     }
 
-    #[verifier::external_body]
     fn fp_neg(&self) -> Self {
+        proof { lemma_fp_consts(); lemma_params(); lemma_val4_bounds(self@); }
         if self.is_zero() {
+            proof { lemma_fp_neg_post(val4(self@), val4(self@)); }
             self.clone()
         } else {
+            proof { lemma_fp_neg_post(val4(self@), P() - val4(self@)); }
             u256_sub(&SM2_P, self).0
         }
     }
@@ -335,17 +677,15 @@ impl FieldModOperation for U256 {
         r
     }
 
-    #[verifier::external_body]
     fn fp_inv(&self) -> Self {
+        proof { lemma_fp_consts(); lemma_params(); }
         fp_pow(self, &SM2_P_MINUS_TWO)
     }
 
-    #[verifier::external_body]
     fn to_byte_be(&self) -> Vec<u8> {
         u256_to_be_bytes(self)
     }
 
-    #[verifier::external_body]
     fn from_byte_be(input: &[u8]) -> Self {
         u256_from_be_bytes(input)
     }
